@@ -88,7 +88,7 @@ def h_delete(n: int, fk: int, second: bool, loc2: int, probe: int, target='array
     assume(0 <= n <= RBIG and -1 <= fk < len(FOREIGN_KINDS) and 0 <= loc2 <= 2)
     small(_small, n)
     w = new_world()
-    md = {'k': 1} if withmeta else None
+    md = {'k': 1} if withmeta is True else None
     if target == 'array':
         put_array(D, w, '/w/x', n, 'int32', 'little', (), metadata=md)
         locs = ['/w/x']
@@ -96,12 +96,18 @@ def h_delete(n: int, fk: int, second: bool, loc2: int, probe: int, target='array
     else:
         put_ragged(D, w, '/w/x', [n], 'int32', 'little', (), metadata=md)
         locs = ['/w/x', '/w/x/values', '/w/x/indices']
+    if withmeta == 'empty':
+        # a metadata.json holding {} (written by an earlier Darr version): Darr's own file all the same
+        m = File()
+        m.text = JsonDoc({})
+        m.bin = None
+        w.lookup('/w/x').entries['metadata.json'] = m
     checks = []
     nforeign = 0
     for i, k in enumerate(FOREIGN_KINDS):
         if fk == i:
             if k == 'collide-dir':
-                assume(not withmeta)
+                assume(withmeta is False)
             checks += place_foreign(w, locs[loc], k, 'a')
             nforeign += 1
     if second:
@@ -163,17 +169,23 @@ def mk_target(w, kind, n):
         w.put('/w/t', f)
 
 
-def h_nondarr(n: int, probe: int, kind='plaindir', fn='delete_array', _gate=None, _small=False):
+def h_nondarr(n: int, probe: int, kind='plaindir', fn='delete_array', form='path', _gate=None, _small=False):
     assume(0 <= n <= RBIG)
     w = new_world()
     mk_target(w, kind, n)
+    target = '/w/t'
+    if form == 'object':
+        if kind == 'array':
+            assume(n == 2)       # the refusal message formats the object (str(Array) prints its values): keep it concrete
+        # the OBJECT of the other kind (opened writable) handed to the function
+        target = RA.RaggedArray('/w/t', accessmode='r+') if kind == 'ragged' else D.array.Array('/w/t', accessmode='r+')
     before = snap(w.lookup('/w'))
     f = {'delete_array': D.array.delete_array, 'delete_raggedarray': RA.delete_raggedarray,
          'truncate_array': lambda p: D.array.truncate_array(p, 0),
          'truncate_raggedarray': lambda p: RA.truncate_raggedarray(p, 0)}[fn]
     try:
-        f('/w/t')
-        raise Violation(f'{fn} accepted a path that is not a Darr array of the right kind ({kind})')
+        f(target)
+        raise Violation(f'{fn} accepted a {form} that is not a Darr array of the right kind ({kind})')
     except TypeError:
         pass
     except Violation:
@@ -383,7 +395,7 @@ def replay_c16(cex, d):
         if ob.startswith('D-delete'):
             p = tmp + '/x'
             target = fx['target']
-            md = {'k': 1} if fx.get('withmeta') else None
+            md = {'k': 1} if fx.get('withmeta') is True else None
             if target == 'array':
                 if n:
                     darr.asarray(p, rp.values(np_, n, (), 'int32'), metadata=md)
@@ -393,6 +405,8 @@ def replay_c16(cex, d):
             else:
                 darr.asraggedarray(p, [rp.values(np_, n, (), 'int32')], metadata=md)
                 locs = [p, p + '/values', p + '/indices']
+            if fx.get('withmeta') == 'empty':
+                open(p + '/metadata.json', 'w').write('{}')
             paths = []
             fk = int(fx['fk'])
             if fk >= 0:
@@ -460,8 +474,11 @@ def replay_c16(cex, d):
             f = {'delete_array': darr.delete_array, 'delete_raggedarray': darr.delete_raggedarray,
                  'truncate_array': lambda q: darr.truncate_array(q, 0),
                  'truncate_raggedarray': lambda q: darr.truncate_raggedarray(q, 0)}[fx['fn']]
+            arg = p
+            if fx.get('form') == 'object':
+                arg = darr.RaggedArray(p, accessmode='r+') if fx['kind'] == 'ragged' else darr.Array(p, accessmode='r+')
             try:
-                f(p)
+                f(arg)
                 probs.append('accepted')
             except TypeError:
                 pass
@@ -543,6 +560,9 @@ def obligations(tier):
     for loc in (0, 1, 2):
         for form in (('object', 'str', 'path') if thorough else ('object', 'str')):
             dsplits.append(dict(target='ragged', loc=loc, form=form, withmeta=(loc == 1)))
+    dsplits += [dict(target='array', loc=0, form='object', withmeta='empty'),
+                dict(target='ragged', loc=0, form='object', withmeta='empty'),
+                dict(target='ragged', loc=1, form='str', withmeta='empty')]
     obs.append(Ob('D-delete', 'h_delete', splits=dsplits, timeout=T, must_reach=('end', 'foreign', 'clean'),
                   replay='replay_c16', sym='n, fk (foreign kind -1..5), second, loc2, probe',
                   bounds='0..2 foreign nodes: first of kind {none, file, dir, dir with file, symlink->file, symlink->dir, '
@@ -552,8 +572,11 @@ def obligations(tier):
                for f in ('delete_array', 'delete_raggedarray', 'truncate_array', 'truncate_raggedarray')]
     nsplits += [dict(kind='ragged', fn='delete_array'), dict(kind='ragged', fn='truncate_array'),
                 dict(kind='array', fn='delete_raggedarray'), dict(kind='array', fn='truncate_raggedarray')]
+    nsplits += [dict(kind='ragged', fn='delete_array', form='object'), dict(kind='ragged', fn='truncate_array', form='object'),
+                dict(kind='array', fn='delete_raggedarray', form='object'),
+                dict(kind='array', fn='truncate_raggedarray', form='object')]
     obs.append(Ob('D-nondarr', 'h_nondarr', splits=nsplits, timeout=T, replay='replay_c16', sym='n, probe',
-                  bounds='target in {plain dir, empty dir, file, missing, array of the other kind}'))
+                  bounds='target in {plain dir, empty dir, file, missing, array of the other kind - by path and as a writable object}'))
     creators = ['asarray', 'create_array', 'asraggedarray', 'create_raggedarray', 'Array.copy',
                 'RaggedArray.copy', 'archive']
     csplits = []
